@@ -223,8 +223,24 @@ def r16_3(ctx, b, m):
         fl = [(bi, ct) for bi, d, ct in calls_in(ctx, b, region) if d and d.endswith('::flattened')]
         if ctx.check(len(fl) == 1, R, key + '|%s flattened' % v, b.loc(sp), 'one flattened() call', 'expected one flattened() call in the %s arm, found %d' % (v, len(fl))):
             bi, ct = fl[0]
-            ctx.check(strip_all(ct[2][0]) == st and ct[2][1] == ('param', 2), R, key + '|%s flattened args' % v, call_line(b, bi),
-                      'flattened(segment, tolerance)', 'flattened() is called as %s, expected (the segment built from the op, the tolerance parameter)' % fmt(b, ct))
+            def is_tolerance(t):
+                # the tolerance parameter itself, or clamped from below by a constant no larger than one f32 ulp at magnitude 1
+                # (lyon_geom refuses tolerances below 1e-8; a clamp at e.g. 0.01 would stop the deviation from shrinking)
+                t = strip_all(t)
+                if t == ('param', 2):
+                    return True
+                if t[0] in ('phi', 'rec'):
+                    ds = an.phi_terms(t) if t[0] == 'phi' else [an.def_term(an.defs[t[1]])]
+                    return bool(ds) and all(is_tolerance(x) for x in ds)
+                if t[0] == 'call' and isinstance(t[1], str) and t[1].endswith('::max') and len(t[2]) == 2:
+                    a0, a1 = strip_all(t[2][0]), strip_all(t[2][1])
+                    for x, c in ((a0, a1), (a1, a0)):
+                        cv = const_val(c)
+                        if is_tolerance(x) and isinstance(cv, float) and 0. <= cv <= 1.2e-7:
+                            return True
+                return False
+            ctx.check(strip_all(ct[2][0]) == st and is_tolerance(ct[2][1]), R, key + '|%s flattened args' % v, call_line(b, bi),
+                      'flattened(segment, tolerance)', 'flattened() is called as %s, expected (the segment built from the op, the tolerance parameter — at most clamped from below by a constant <= 1.2e-7)' % fmt(b, ct))
             # pushes in the arm: LineTo{0: payload of next() on the iterator of flattened}
             def from_next(pct):
                 pv0 = strip_all(pct[2][1])
